@@ -201,8 +201,12 @@ def inheritance(w):
 
     class C(B):
         gc = g("GC")
+    class Dm(B):        # overrides an inherited group: the most derived declaration wins
+        ga = g("GX")
     got = sorted(C()._vectors)
-    return {"reproduced": got != ["VGA", "VGB", "VGC"], "detail": "C(B(A(Driver))) has properties %r" % (got,)}
+    got_m = sorted(Dm()._vectors)
+    bad = got != ["VGA", "VGB", "VGC"] or got_m != ["VGB", "VGX"]
+    return {"reproduced": bad, "detail": "C(B(A(Driver))) has properties %r; Dm(B) overriding group ga has %r" % (got, got_m)}
 
 
 @kind("driver.publish")
@@ -251,7 +255,10 @@ def publish(w):
             if back.to_string() != m.to_string():
                 probs.append("%s: %s not read back unchanged" % (tag, m.__class__.__name__))
         del c.got[:]
-    r.process_message(M.GetProperties(version="1.7"), sender=c)
+    try:
+        r.process_message(M.GetProperties(version="1.7"), sender=c)
+    except Exception as e:
+        return {"reproduced": True, "detail": "getProperties raised %r" % (e,)}
     defs = [m for m in c.got if isinstance(m, M.DefVector)]
     if sorted(m.name for m in defs) != ["BLOB", "LIGHT", "NUMBER", "SWITCH", "TEXT"]:
         probs.append("getProperties defined %r" % sorted(m.name for m in defs))
@@ -268,9 +275,22 @@ def publish(w):
         if any(isinstance(m, M.DefVector) for m in c.got):
             probs.append("getProperties(device=%r, name=%r) elicited a definition" % (dev, name))
         del c.got[:]
-    d.main.text.a.value = "z"
-    d.main.number.s.value = 5.9999
-    d.main.blob.b.value = values.BLOB(b"abc", ".bin")
-    d.main.switch.b.bool_value = True
+    try:
+        d.main.text.a.value = "z"
+        d.main.number.s.value = 5.9999
+        d.main.number.t.value = -1.5
+        d.main.blob.b.value = values.BLOB(b"abc", ".bin")
+        d.main.switch.b.bool_value = True
+        d.main.number.state_ = "Busy"
+    except Exception as e:
+        return {"reproduced": True, "detail": "a run-time update raised %r" % (e,)}
+    busy = [m for m in c.got if isinstance(m, M.SetVector) and m.name == "NUMBER"]
+    if not busy or busy[-1].state != "Busy":
+        probs.append("state change not published")
+    roundtrip_all("updates")
+    r.process_message(M.GetProperties(version="1.7", device="DEV", name="NUMBER"), sender=c)
+    for m in c.got:
+        if isinstance(m, M.DefVector) and m.state != "Busy":
+            probs.append("definition after a run-time state change carries state %r, the property is Busy" % (m.state,))
     roundtrip_all("updates")
     return {"reproduced": bool(probs), "detail": "; ".join(probs[:4]) or "all emitted messages are read back unchanged; getProperties answered exactly"}
